@@ -495,7 +495,10 @@ func (sess *session) Create(ctx context.Context, parent Fid, name string,
 		err = openLocked(ctx, &next, mode)
 		if err != nil { // Oops: Create has already succeeded
 						// - so now we have to delete everthing.
-			sess.delRef(ctx, parent, false)
+			// ref (== parent) is locked by us: drop it from the table
+			// and clunk it directly; delRef would re-lock and deadlock.
+			sess.refs.Delete(parent)
+			delRefAction(ctx, ref, false)
 			// Note: ignoring possible multiple errors
 			return fail(err.Error())
 		}
